@@ -764,3 +764,74 @@ def _mutate_break(rng, m, kind):
         i._var_map[name] = rng.choice(same)       # operand changed behind the bookkeeping's back
         return True
     return False
+
+
+# ------------------------------------------------------------------ verifier gap witnesses (real objects)
+def gap_witnesses():
+    """name -> ill-formed module that the verifier as found accepts (Proofs/C03_verify.v w1..w4)"""
+    def fn(params=()):
+        m = ir.Module('w')
+        f = ir.Function('f', ir.Binding.GLOBAL, ir.i32)
+        m.add_function(f)
+        ps = []
+        for k, t in enumerate(params):
+            p = ir.Parameter('a%d' % k, t)
+            f.add_parameter(p)
+            ps.append(p)
+        e = f.add_block(ir.Block('entry'))
+        f.entry = e
+        return m, f, e, ps
+    out = {}
+    m, f, e, _ = fn()
+    c = ir.Const(1, 'c', ir.i32)
+    e.add_instruction(c)
+    p = ir.Phi('p', ir.i32)
+    e.add_instruction(p)
+    p.set_incoming(e, c)
+    e.add_instruction(ir.Return(p))
+    out['vx_phi_exact'] = m
+    m, f, e, _ = fn()
+    c = ir.Const(1, 'c', ir.i8)
+    e.add_instruction(c)
+    c2 = ir.Const(1, 'c2', ir.i32)
+    e.add_instruction(c2)
+    u = ir.Unop('-', c2, 'u', ir.i32)     # the constructor checks the type, replace_use does not
+    e.add_instruction(u)
+    u.replace_use(c2, c)
+    e.add_instruction(ir.Return(u))
+    out['vx_unop'] = m
+    m, f, e, _ = fn()
+    c0 = ir.Const(1, 'c0', ir.i32)
+    e.add_instruction(c0)
+    x = ir.Binop(c0, '+', c0, 'x', ir.i32)
+    e.add_instruction(x)
+    c = ir.Const(2, 'c', ir.i32)
+    e.add_instruction(c)
+    e.add_instruction(ir.Return(x))
+    x._var_map['a'] = c          # operands changed behind the bookkeeping: use before definition
+    x._var_map['b'] = c
+    out['vx_uses'] = m
+    m, f, be, (a,) = fn([ir.i32])
+    ba, bb, bj = [f.add_block(ir.Block(n)) for n in ('a', 'b', 'j')]
+    c = ir.Const(1, 'c', ir.i32)
+    be.add_instruction(c)
+    be.add_instruction(ir.CJump(a, '==', c, ba, bb))
+    x = ir.Const(5, 'x', ir.i32)
+    ba.add_instruction(x)
+    ba.add_instruction(ir.Jump(bj))
+    bb.add_instruction(ir.Jump(bj))
+    phi = ir.Phi('p', ir.i32)
+    bj.add_instruction(phi)
+    phi.set_incoming(ba, x)
+    phi.set_incoming(bb, x)
+    bj.add_instruction(ir.Return(phi))
+    out['vx_phi_all'] = m
+    return out
+
+
+VXKEYS = ['vx_phi_exact', 'vx_unop', 'vx_uses', 'vx_phi_all']
+
+
+def probe_vfixes():
+    """which repairs of the verifier are present in the tree (a witness that is rejected = repaired)"""
+    return {k: real_verify(m) != 'ok' for k, m in gap_witnesses().items()}
